@@ -14,8 +14,10 @@ ByteStyles == {"one", "sep", "split"}
 BothStyles == ByteStyles \cup {"cmt", "mixed"}     \* a start and an end marker are present
 
 Incomplete == [i \in 1..(NopLen(ISA) - 1) |-> i]     \* marker bytes with the last one missing
+\* Bytes(Nop(ISA)) lets a look-alike mov be followed by the complete marker bytes; files in which a
+\* pool line thereby forms an additional real marker are excluded in Init (MarkerCountAsBuilt)
 Pool == { Ln("instr"), Ln("comment"), Ln("label"), Ln("directive"), Ln("movval"), Ln("movreg"),
-          Ln("startmov"), Ln("endmov"), Bytes(<<0>>), Bytes(Incomplete) }
+          Ln("startmov"), Ln("endmov"), Bytes(<<0>>), Bytes(Incomplete), Bytes(Nop(ISA)) }
 \* prologue and epilogue draw from the sub-pool named by EdgeCodes (keeps the space small)
 EdgePool == { l \in Pool : Code(l) \in EdgeCodes }
 SeqsUpTo(S, n) == UNION { [1..m -> S] : m \in 0..n }
@@ -39,6 +41,11 @@ EndMarker(style) ==
     [] style \in {"none", "startonly"} -> <<>>
 
 VARIABLES style, pro, body, epi, file, st
+\* only the markers put there by construction (a startmov/endmov of the pool followed by the
+\* full marker bytes would be a second marker: such files are outside the statement)
+MarkerCountAsBuilt ==
+  /\ Cardinality(StartMarks(file, ISA)) = (IF style \in {"none", "endonly"} THEN 0 ELSE 1)
+  /\ Cardinality(EndMarks(file, ISA)) = (IF style \in {"none", "startonly"} THEN 0 ELSE 1)
 vars == <<style, pro, body, epi, file, st>>
 
 Init ==
@@ -47,6 +54,7 @@ Init ==
   /\ body \in SeqsUpTo(Pool, MaxBody)
   /\ epi \in SeqsUpTo(EdgePool, MaxEpi)
   /\ file = pro \o StartMarker(style) \o body \o EndMarker(style) \o epi
+  /\ MarkerCountAsBuilt
   /\ st = St0
 
 Stay == UNCHANGED <<style, pro, body, epi, file>>
